@@ -552,7 +552,15 @@ def l5_l6(e: Engine, rep: Report):
         rep.evaluations += 1
         # error arm of _deliver: RSET after failing the request
         dctx = e.method_ctx(cq, '_deliver')
-        dg = e.build(dctx, raises=pool.make_raises(e), assert_raises=False)
+        def settles(builder, call, target, frame):
+            # helpers of the same object that fail the request themselves
+            return target.recv_is_self and frame.self_same and \
+                target.func.name != '_rset' and any(
+                    isinstance(x, ast.Attribute) and
+                    x.attr == 'set_exception' and isinstance(x.ctx, ast.Load)
+                    for x in ast.walk(target.func.node))
+        dg = e.build(dctx, inline=settles, raises=pool.make_raises(e),
+                     assert_raises=False, max_depth=3)
         dwhere = '%s[%s]' % (dctx.func.qname, short)
         rep.functions.add(dctx.func.qname)
         fails = [n for n in dg.nodes if n.kind == 'call' and
